@@ -100,3 +100,13 @@ Definition many_posts : list dact :=
 Definition many_drain : list dact :=
   [DCons 0] ++
   flat_map (fun _ => [DCons 0; DCons 1; DCons 0; DSched 10; DSched 11]) [1; 2; 3; 4; 5; 6; 7; 8; 9; 10; 11].
+
+(* teardown: the service, held inside a posted closure, stops its own run service and keeps
+   working; a Post, an expiring timer and a local event follow; then the handler ends and the
+   loop gets to the close signal *)
+Definition td_stop : list dact :=
+  [DOther (OSend 2 5); DCons 0; DCons 2; DStop;
+   DOther (OSend 2 6); DOther (OSend 4 9); DOther (OSend 5 7)].
+Definition td_end : list dact := [DCons 0; DCons 0; DCons 3; DCons 0; DCons 0].
+Definition td_more : list dact :=
+  [DCons 0; DCons 5; DCons 0; DOther (OSend 2 8); DOther (OSend 5 10); DPost 0 1; DSched 0; DCons 1; DCons 0].
